@@ -364,12 +364,16 @@ func runC07(e *Engine, r *Report) {
 	// ---- one pending config change on the leader
 	pcc := r.needField("internal/raft", "raft", "pendingConfigChange")
 	setP := r.need(raftT + "setPendingConfigChange")
-	hasP := r.need(raftT + "hasPendingConfigChange")
+	hasP := r.helper(raftT + "hasPendingConfigChange")
 	clrP := r.need(raftT + "clearPendingConfigChange")
 	appendE := r.need(raftT + "appendEntries")
 	entType := e.Field("raftpb", "Entry", "Type")
 	ccEntry := e.Const("raftpb", "ConfigChangeEntry")
-	if pcc != nil && setP != nil && hasP != nil && clrP != nil && appendE != nil {
+	// "a change is pending": the getter when it exists, or the flag itself
+	var pendingV VM = func(v ssa.Value) bool {
+		return (hasP != nil && e.callV(hasP)(v)) || fieldV(pcc)(v)
+	}
+	if pcc != nil && setP != nil && clrP != nil && appendE != nil {
 		for _, w := range e.FieldWrites(pcc) {
 			if w.Kind == "init" {
 				continue
@@ -458,7 +462,7 @@ func runC07(e *Engine, r *Report) {
 			replaced := false
 			forEachInstr(fn, func(in ssa.Instruction) {
 				ifi, ok := in.(*ssa.If)
-				if !ok || !e.callV(hasP)(ifi.Cond) {
+				if !ok || !pendingV(ifi.Cond) {
 					return
 				}
 				g2, _ := e.guardedOnAllPaths(in, reqCmp("", "==", fieldV(entType), constV(ccEntry)))
